@@ -15,6 +15,9 @@ import tempfile
 import xml.etree.ElementTree as ET
 
 
+HERE = os.path.dirname(os.path.dirname(os.path.abspath(__file__)))
+
+
 def sh(cmd, cwd=None, env=None, timeout=3600):
     p = subprocess.run(cmd, cwd=cwd, env=env, capture_output=True, text=True, timeout=timeout)
     return p.returncode, p.stdout + p.stderr
@@ -70,7 +73,7 @@ def main():
         env["VERIF_REPO"] = copy
         caught = {}
         for c in checks:
-            rc, log = sh(["/verif/check", c, tier], cwd="/verif", env=env, timeout=7200)
+            rc, log = sh([os.path.join(HERE, "check"), c, tier], cwd=HERE, env=env, timeout=7200)
             viol = [l for l in log.splitlines() if l.startswith("VIOLATION")]
             clauses = sorted({l.strip() for l in log.splitlines() if l.strip().startswith("clause=")})
             caught[c] = {"rc": rc, "violations": len(viol), "clauses": clauses[:6], "summary": [l for l in log.splitlines() if l.startswith(c + " ")][-1:]}
